@@ -21,8 +21,8 @@ func init() {
 				"no-return; Slice is only applied to a value whose kind was tested. (C06.conv) every reflect Convert is reached only after ConvertibleTo on the same value (or the []byte→string " +
 				"kind test) and its result is used. (C06.unexp) a struct field value returned by resolveIndex comes from the exported-only cache (buildCache stores a field only under PkgPath == \"\") " +
 				"or lies behind the PkgPath test. (C06.nil) resolveIndex tests for a nil interface before MethodByName, indirect() stops at nil, every failing return of the resolver carries a " +
-				"non-nil error, the only (zero value, nil error) result is the absent map key at the end of a chain, and promoted fields are reached by a walker that tests IsNil before Elem (never reflect.Value.FieldByIndex, which panics on a nil embedded pointer). (C06.same) a.b, a.b.c, a[\"b\"] and isset all resolve through resolveIndex " +
-				"and perform no reflect lookup of their own. (C06.cache) every value stored into the struct field-index cache (the per-type map and each field's index path) is a fresh allocation made for that entry, never storage shared with a sibling path or the caller. (C06.cache, continued) buildCache writes an entry only where none exists or the new index path is not longer (the shallowest field wins, as in Go); the field table resolveIndex consults is the one found in or stored into the package-level map on every path. (C06.nil, continued) indirect() returns a non-nil result only for a value that is neither pointer nor interface.",
+				"non-nil error, the only (zero value, nil error) result is the absent map key at the end of a chain, and promoted fields are reached by a walker that tests IsNil before Elem (never reflect.Value.FieldByIndex/FieldByName, which panic on a nil embedded pointer — also when a field is assigned). (C06.same) a.b, a.b.c, a[\"b\"] and isset all resolve through resolveIndex " +
+				"and perform no reflect lookup of their own. (C06.cache) every value stored into the struct field-index cache (the per-type map and each field's index path) is a fresh allocation made for that entry, never storage shared with a sibling path or the caller. (C06.cache, continued) buildCache writes an entry only where none exists or the new index path is not longer (the shallowest field wins, as in Go); the field table resolveIndex consults is the one found in or stored into the package-level map on every path. (C06.nil, continued) indirect() returns a non-nil result only for a value that is neither pointer nor interface. (C06.same, continued) the name argument of resolveIndex is a node's field/identifier name, or empty together with an evaluated index value (never a string literal's text); the method lookup takes the address of every addressable value that is neither pointer nor interface; every store into a template variable and every read from the scope chain agree on unwrapping interfaces.",
 			NotDecided:  "that reflection finds the right field for every type shape (promoted/shadowed fields), pointer-receiver methods on non-addressable values, executeSet's writes.",
 			Assumptions: []string{"Go's reflect package panics exactly as documented"},
 			Trusted:     commonTrusted,
@@ -45,6 +45,7 @@ func init() {
 			{Name: "field paths share the parent's backing array (agent seed C06/1)", File: "eval.go", Old: "\t\tindex := make([]int, max)\n\t\tcopy(index, parent)\n\t\tindex[len(parent)] = i\n", New: "\t\tindex := append(parent, i)\n\t\t_ = max\n", Rule: "C06.cache"},
 			{Name: "one scratch path allocated outside the field loop", File: "eval.go", Old: "\tfor i := 0; i < numFields; i++ {\n\n\t\tindex := make([]int, max)\n", New: "\tindex := make([]int, max)\n\tfor i := 0; i < numFields; i++ {\n\n", Rule: "C06.cache"},
 			{Name: "equivalent: path built by appending onto a clipped copy", File: "eval.go", Old: "\t\tindex := make([]int, max)\n\t\tcopy(index, parent)\n\t\tindex[len(parent)] = i\n", New: "\t\tindex := append(parent[:len(parent):len(parent)], i)\n\t\t_ = max\n", Rule: "-"},
+			{Name: "field assigned through reflect.Value.FieldByName (original defect: nil embedded pointer panics)", File: "eval.go", Old: "\t\tfield, found := value.Type().FieldByName(fields[lef])\n\t\tif !found {", New: "\t\tfield, found := value.Type().FieldByName(fields[lef])\n\t\t_ = value.FieldByName(fields[lef])\n\t\tif !found {", Rule: "C06.nil"},
 			{Name: "promoted field read with FieldByIndex (original defect: nil embedded pointer panics)", File: "eval.go", Old: "\t\t\tfield, err := fieldByIndex(v, id)\n\t\t\tif err != nil {\n\t\t\t\treturn reflect.Value{}, err\n\t\t\t}\n", New: "\t\t\tfield := v.FieldByIndex(id)\n", Rule: "C06.nil"},
 			{Name: "field-path walker dereferences without the nil test", File: "eval.go", Old: "\t\t\tif v.IsNil() {\n\t\t\t\treturn reflect.Value{}, fmt.Errorf(\"nil pointer to embedded struct %s\", v.Type().Elem())\n\t\t\t}\n\t\t\tv = v.Elem()", New: "\t\t\tv = v.Elem()", Rule: "C06.nil"},
 			{Name: "variables unwrapped at assignment instead of at lookup, loop variables forgotten (agent seed C06/6)", File: "eval.go", Old: "\t\tv, ok := sc.variables[name]\n\t\tif ok {\n\t\t\treturn indirectEface(v), nil\n\t\t}", New: "\t\tv, ok := sc.variables[name]\n\t\tif ok {\n\t\t\treturn v, nil\n\t\t}", Rule: "C06.same"},
@@ -823,9 +824,9 @@ func c06fieldPath(c *an.Ctx) {
 			continue
 		}
 		info := f.Info()
-		for _, call := range p.CallsIn(f, "(reflect.Value).FieldByIndex") {
+		for _, call := range p.CallsIn(f, "(reflect.Value).FieldByIndex", "(reflect.Value).FieldByName", "(reflect.Value).FieldByNameFunc") {
 			n++
-			c.Bad("C06.nil", f.Name+"/field-path", call.Pos(), nil, "%s reads a field through reflect.Value.FieldByIndex: for a promoted field behind a nil embedded pointer it panics with a string, which Execute re-panics instead of returning an error", f.Name)
+			c.Bad("C06.nil", f.Name+"/field-path", call.Pos(), nil, "%s reaches a field through reflect.Value.%s: for a promoted field behind a nil embedded pointer it panics with a string, which Execute re-panics instead of returning an error", f.Name, call.Fun.(*ast.SelectorExpr).Sel.Name)
 		}
 		// a walker: a loop over an index path ([]int) applying Field(i) — every Elem() in it lies behind IsNil() == false
 		var elems []ast.Node
